@@ -10,14 +10,16 @@ from .runner import HarnessFailure, judge_case
 from .world import DEFAULT_KNOBS
 
 
-def same_class(findings, prop, oracle):
+def same_class(findings, prop, oracle, witness=None):
     for f in findings:
-        if f["property"] == prop and f["oracle"] == oracle:
+        if f["property"] == prop and f["oracle"] == oracle and (witness is None or f.get("witness") == witness):
             return f
     return None
 
 
 class Budget:
+    witness = None
+
     def __init__(self, max_execs=150, max_s=60.0):
         self.left = max_execs
         self.deadline = time.monotonic() + max_s
@@ -37,7 +39,7 @@ def fails(prop, oracle, case, budget):
         out = judge_case(prop, case)
     except HarnessFailure:
         return None
-    return same_class(out["findings"], prop, oracle)
+    return same_class(out["findings"], prop, oracle, budget.witness)
 
 
 def _used_names(ops):
@@ -73,9 +75,10 @@ def prune_pools(case):
     return c
 
 
-def shrink(prop, oracle, case, max_execs=150, max_s=60.0):
+def shrink(prop, oracle, case, max_execs=150, max_s=60.0, witness=None):
     """Returns (minimised case, finding, executions used)."""
     budget = Budget(max_execs, max_s)
+    budget.witness = witness
     best = copy.deepcopy(case)
     f0 = fails(prop, oracle, best, budget)
     if f0 is None:
